@@ -29,12 +29,17 @@ META = dict(
          "reading's match with the same end and tokens, a ParseException means the reading has no match, and no fatal "
          "exception or IndexError can come out), sem_deterministic (the reading is a partial function), hence "
          "plain_parse_iff_sem (for every returning run: success <-> Sem derives that match, failure <-> Sem derives 'no "
-         "match'), plain_parse_stable / plain_parse_ok_excludes_fail (independent of fuel and doActions), plainTable_iff "
+         "match'), plain_parse_stable / plain_parse_ok_excludes_fail (independent of fuel and doActions), plain_parse_complete "
+         "(conversely every result the reading derives at a location <= len+1 is returned once the fuel suffices), so "
+         "plain_parse_eq_sem: (exists fuel, parse = ok e ts) <-> Sem derives (e, ts), (exists fuel, parse fails) <-> Sem "
+         "derives 'no match', and plain_parse_returns_iff: the algorithm returns for some fuel iff the reading assigns a "
+         "result at all (non-returning runs = tasks the reading leaves undefined: a repetition body that does not advance, a "
+         "Forward recursing without consuming); plainTable_iff "
          "(the driver's executable test is exactly the hypothesis). The driver reports per compared grammar whether the "
          "hypothesis holds (evidence: plain_fragment; about 2/3 of the generated grammars). Plain = Literal, Empty, NoMatch, "
          "StringEnd, Word/CharsNotIn/Keyword/CaselessLiteral/LineEnd/WordStart/WordEnd as given terminal matchers, And, "
          "MatchFirst, Opt, OneOrMore/ZeroOrMore, NotAny, FollowedBy, Group, Suppress, Forward; no actions/names, ignorables, "
-         "error stops, stop_on. PARTIAL: 'the reading has a result => the algorithm returns it' (no divergence) is not proved. "
+         "error stops, stop_on. "
          "(2) Outside the fragment, clause theorems (PPProofs/Props/C01.lean), each for ALL sub-expression behaviours, inputs, "
          "locations and list shapes: and_rest_iff_chain, matchfirst_first, or_longest_leftmost + sortDesc_head + best_spec + "
          "orPass1_cands (the two-pass Or returns the longest trial match, leftmost on ties), rep_greedy_no_giveback and "
@@ -62,7 +67,8 @@ THEOREMS = [
     "PP.Parse.skipWhite_skips_only_white", "PP.Parse.preParse_is_skipWhite", "PP.Parse.skip_then_match",
     # the closed theorem for the plain fragment (Props/C01Sem.lean over the declarative reading Props/C01SemDef.lean)
     "PP.Parse.plain_parse_sound", "PP.Parse.sem_deterministic", "PP.Parse.plain_parse_iff_sem", "PP.Parse.plain_parse_stable",
-    "PP.Parse.plain_parse_ok_excludes_fail", "PP.Parse.plainTable_iff",
+    "PP.Parse.plain_parse_ok_excludes_fail", "PP.Parse.plainTable_iff", "PP.Parse.plain_parse_complete",
+    "PP.Parse.plain_parse_eq_sem", "PP.Parse.plain_parse_returns_iff",
 ]
 
 # default whitespace, no actions, no ignorables, no '-', no classes whose reading the reference does not implement
